@@ -109,6 +109,9 @@ type faultDB struct {
 	readErrPro bool // Get on highest_prop-* fails
 	errFound   bool // value of `found` returned together with the injected error
 	readErrHit int
+	writeErrAtt bool // Set on highest_att-* fails (the write is NOT applied)
+	writeErrPro bool // Set on highest_prop-* fails
+	writeErrHit int
 }
 
 // db returns the wrapped store (synchronised: the concurrent lane detaches it from frozen signers).
@@ -169,8 +172,23 @@ func (f *faultDB) step(op string, prefix []byte) (crashAfter bool) {
 	return false
 }
 
+var errInjectedWrite = errors.New("c04: injected storage write error")
+
 func (f *faultDB) Set(prefix, key, value []byte) error {
 	after := f.step("Set", prefix)
+	f.mu.Lock()
+	cl := classOf(prefix)
+	failW := (cl == "highest_att" && f.writeErrAtt) || (cl == "highest_prop" && f.writeErrPro)
+	if failW {
+		f.writeErrHit++
+	}
+	f.mu.Unlock()
+	if failW {
+		if after {
+			panic(crashSentinel{})
+		}
+		return errInjectedWrite
+	}
 	err := f.db().Set(prefix, key, value)
 	if after {
 		panic(crashSentinel{})
@@ -577,6 +595,8 @@ func refusalClass(err error) string {
 	switch {
 	case errors.Is(err, errInjectedRead) || strings.Contains(s, "injected storage read error"):
 		return "read-error"
+	case errors.Is(err, errInjectedWrite) || strings.Contains(s, "injected storage write error"):
+		return "write-error"
 	case strings.Contains(s, "slashable attestation"):
 		return "slashable-attestation"
 	case strings.Contains(s, "slashable proposal"):
